@@ -91,7 +91,9 @@ def proj_c17(calls):
 def proj_c20(calls):
     out = []
     for c in calls:
-        evs = [e[:7] for e in c["out"] if e[0] == "INV"]
+        # listeners registered after the execution engine's see the API object as a nested completion left it
+        # (finding K17): identifiers are compared for the EE's own listener and for all other kinds only
+        evs = [(e[:7] if (e[1] != "ss" or e[2] == 0) else e[:5]) for e in c["out"] if e[0] == "INV"]
         out.append([c["op"]["op"], c["op"].get("kind"), c["op"].get("fn"), c["ret"], c["exc"], evs])
     return out
 
@@ -490,7 +492,28 @@ def _run(ctx, cfg, n_cases, pool, res):
             res["violations"].append({"rule": v["rule"], "msg": "finding %s now fails differently: %s" % (kf["id"], v["msg"]),
                                       "replay_obj": _replay_obj(prop, r, v)})
         else:
-            res["notes"].append("finding %s no longer reproduces on this tree" % kf["id"])
+            # the recorded history no longer shows the symptom: drive the finding's program with freshly generated
+            # histories (the behaviour on this shape has changed) and report whatever the monitors find now
+            found = None
+            for j in range(6):
+                c2 = {k: v for k, v in obj["case"].items() if k not in ("ops", "answers", "terminator")}
+                c2 = copy.deepcopy(c2)
+                c2["seed"] = j
+                c2["pick"] = ["fifo", "lifo", "random"][j % 3]
+                c2["imm"] = [[False], [False, True], [True]][j % 3] if j >= 3 else obj["case"]["imm"]
+                r2 = pool.apply(job_run, (c2,))
+                vs2 = [v for v in r2["viol"] if v["prop"] == prop]
+                if vs2:
+                    found = (r2, vs2[0])
+                    break
+            if found and found[1]["rule"] not in obj.get("rules_allowed", [kf["rule"]]):
+                r2, v = found
+                res["violations"].append({"rule": v["rule"], "msg": "the shape of finding %s now fails differently: %s" % (kf["id"], v["msg"]),
+                                          "replay_obj": _replay_obj(prop, r2, v)})
+            elif found:
+                res["known"].append("id=%s %s" % (kf["id"], kf["text"]))
+            else:
+                res["notes"].append("finding %s no longer reproduces on this tree" % kf["id"])
     # main stream ------------------------------------------------------------------------------
     results += pool.map(job_gen_run, jobs, chunksize=4)
     deep = [r for r in results if r.get("valid") and any(c.get("exc") == "RecursionError" and len(c["out"]) > 150 for c in r["calls"])]
@@ -502,8 +525,9 @@ def _run(ctx, cfg, n_cases, pool, res):
     disagreements = []
     model_errors = 0
     if ctx["model_ok"]:
-        resps = run_model([sc.model_request(r["case"]) for r in valid])
-        for r, resp in zip(valid, resps):
+        modelled = [r for r in valid if not r["case"].get("imm_other")]
+        resps = run_model([sc.model_request(r["case"]) for r in modelled])
+        for r, resp in zip(modelled, resps):
             d = compare(r, resp, proj)
             r["model_stuck"] = any(c.get("stuck") == "outOfFuel" for c in resp.get("calls", []))
             if d and not r["model_stuck"]:
@@ -637,7 +661,8 @@ def _run(ctx, cfg, n_cases, pool, res):
         "distinct_nontrivial": len(nontrivial),
         "rule": "cases = random valid program (typed generator, all 7 statement kinds, outside the known-finding shapes) x scripted EE (values per query, completion order %s, immediate completions none/all/mixed)%s; distinct by hash of (text, ops, imm, ids); non-trivial: %s"
                 % ("fifo/lifo/random", " x API history (junk events, repeated start, registration/attach history)" if cfg.get("hist") else "", cfg["rule"]),
-        "traces_validated_against_impl": len(valid) if ctx["model_ok"] else 0,
+        "traces_validated_against_impl": len([r for r in valid if not r["case"].get("imm_other")]) if ctx["model_ok"] else 0,
+        "monitor_only_cross_reentrant_cases": len([r for r in valid if r["case"].get("imm_other")]),
         "disagreements_checked": len(disagreements),
         "model_out_of_fuel": sum(1 for r in valid if r.get("model_stuck")),
         "invalid_programs": len(invalid),
